@@ -214,7 +214,11 @@ theorem C06_raw_read_shape :
       ["alloc:const", "read:buf", "SetSize:returned", "minus(4):returned", "alloc:data",
        "minus(1):returned", "read:buf[:1]", "minus(data):returned", "?read:buf[:data]",
        "alloc:data", "read:buf"] ∧
-    Gen.frames_raw_minus_guard = ["$d < 0 || $1 < 0"] := by
+    -- `minus` EXECUTED on 35 argument pairs: it refuses exactly when a - b < 0 or b < 0, and hands
+    -- back a - b when it accepts (however the test is spelled)
+    Gen.frames_raw_minus_table.length = 35 ∧
+    Gen.frames_raw_minus_table.all (fun r =>
+      r.2.2.1 == (decide (r.1 - r.2.1 < 0) || decide (r.2.1 < 0)) && (r.2.2.1 || r.2.2.2 == r.1 - r.2.1)) = true := by
   decide
 
 /-- **What is NOT sized by an announced length, by name** (so that a new unbounded read cannot appear
